@@ -934,16 +934,21 @@ int cp_rsa_ver(uint8_t *sig, size_t sig_len, const uint8_t *msg, size_t msg_len,
 
 		bn_read_bin(eb, sig, sig_len);
 
+		/* RSAVP1: the signature representative is below the modulus. */
+		int in_range = (bn_cmp(eb, pub->crt->n) == RLC_LT);
+
 		bn_mxp(eb, eb, pub->e, pub->crt->n);
 
 		int operation = (!hash ? RSA_VER : RSA_VER_HASH);
 
 #if CP_RSAPD == BASIC
-		if (pad_basic(eb, &pad_len, RLC_MD_LEN, size, operation) == RLC_OK) {
+		if (in_range &&
+				pad_basic(eb, &pad_len, RLC_MD_LEN, size, operation) == RLC_OK) {
 #elif CP_RSAPD == PKCS1
-		if (pad_pkcs1(eb, &pad_len, RLC_MD_LEN, size, operation) == RLC_OK) {
+		if (in_range &&
+				pad_pkcs1(eb, &pad_len, RLC_MD_LEN, size, operation) == RLC_OK) {
 #elif CP_RSAPD == PKCS2
-		if (pad_pkcs2(eb, &pad_len, bn_bits(pub->crt->n), size,
+		if (in_range && pad_pkcs2(eb, &pad_len, bn_bits(pub->crt->n), size,
 						operation) == RLC_OK) {
 #endif
 
